@@ -31,9 +31,8 @@ class FrameSetup(object):
         self.prog = prog
         self.ix = prog.unit(BLOCK_UNIT)
         self.lookup = state_lookup_name(prog)
-        for f in ('parseFrame', self.lookup):
-            if f not in self.ix.functions:
-                raise AnalysisBroken('anchor function %s vanished from %s' % (f, BLOCK_UNIT))
+        if 'parseFrame' not in self.ix.functions:
+            raise AnalysisBroken('anchor function parseFrame vanished from %s' % BLOCK_UNIT)
         self.mtu_ok = mtu_ok
         self.port = PortModel(mtu_ok=mtu_ok, alloc_may_fail=alloc_may_fail)
         self.alloc_may_fail = alloc_may_fail
@@ -343,52 +342,32 @@ def entry_icon_exists(fs, st):
     return None
 
 
-# The interface record as the rules know it: (role name, C type) in declaration order.  A field that was merely renamed is
-# found again by its type and its position among the fields of that type (renaming is not a change of behaviour); added or
-# removed fields of that type make the role ambiguous -> analysis broken.
-IFACE_ROLES = [('iface_ctx', 'void *'), ('next', 'struct lltd_iface_state *'), ('see_list', 'probe_t *'), ('see_list_count', 'uint32_t'),
-               ('mapper_real', 'ethernet_address_t'), ('mapper_apparent', 'ethernet_address_t'), ('mapper_known', 'uint8_t'),
-               ('mapper_seq', 'uint16_t'), ('mapper_gen_topology', 'uint16_t'), ('mapper_gen_quick', 'uint16_t'),
-               ('small_icon', 'void *'), ('small_icon_size', 'size_t')]
-_TYPE_ALIASES = {'_Bool': 'uint8_t', 'bool': 'uint8_t', 'unsigned char': 'uint8_t', 'unsigned short': 'uint16_t', 'unsigned int': 'uint32_t', 'unsigned long': 'size_t'}
-
-
-def _norm_type(qt):
-    qt = ' '.join(qt.replace('const ', '').split())
-    return _TYPE_ALIASES.get(qt, qt)
-
-
 def record_field(srec, name):
-    """(name, offset, type, id) of the interface record's field playing role `name`."""
+    """(name, offset, type, id) of the record field playing role `name` (renamed fields are re-identified by type and position,
+    see facts.ROLE_TABLES)."""
     f = srec.field(name)
-    if f is not None:
-        return f
-    roles = dict(IFACE_ROLES)
-    if name not in roles:
-        raise AnalysisBroken('field lltd_iface_state.%s vanished' % name)
-    ty = _norm_type(roles[name])
-    missing = [n for n, t in IFACE_ROLES if _norm_type(t) == ty and srec.field(n) is None]
-    known = set(n for n, _t in IFACE_ROLES)
-    unnamed = [x for x in srec.fields if _norm_type(x[2]) == ty and x[0] not in known]
-    if len(missing) != len(unnamed):
-        raise AnalysisBroken('field lltd_iface_state.%s vanished and cannot be re-identified by type (%d roles, %d candidate fields of type %s)'
-                             % (name, len(missing), len(unnamed), ty))
-    return unnamed[missing.index(name)]
+    if f is None:
+        raise AnalysisBroken('field %s.%s vanished and cannot be re-identified by type' % (srec.name, name))
+    return f
 
 
-def iface_list_name(prog):
-    """Name of the list head of interface records: the file-scope static of type `lltd_iface_state *` in the frame
-    handler's unit (`g_iface_states` today), found by type."""
-    ix = prog.unit(BLOCK_UNIT)
+def iface_list_unit(prog):
+    """(unit path, name) of the list head of interface records: the file-scope static of type `lltd_iface_state *`
+    (`g_iface_states` in lltdBlock.c today) - found by type, in whichever core unit defines it."""
     c = []
-    for n in facts.walk(ix.unit.ast):
-        if n.get('kind') == 'VarDecl' and n.get('_fn') is None and n.get('storageClass') == 'static':
-            qt = ' '.join(n['type']['qualType'].replace('struct ', '').split())
-            if qt == 'lltd_iface_state *' and n.get('name') not in c:
-                c.append(n['name'])
+    for path, ix in sorted(prog.index.items()):
+        for n in facts.walk(ix.unit.ast):
+            if n.get('kind') == 'VarDecl' and n.get('_fn') is None and n.get('storageClass') == 'static' and (n.get('_file') or '').endswith(path):
+                qt = ' '.join(n['type']['qualType'].replace('struct ', '').split())
+                if qt == 'lltd_iface_state *' and (path, n.get('name')) not in c:
+                    c.append((path, n['name']))
     if len(c) != 1:
         raise AnalysisBroken('cannot identify the list head of interface records (file-scope static lltd_iface_state *): candidates %s' % c)
     return c[0]
+
+
+def iface_list_name(prog):
+    return iface_list_unit(prog)[1]
 
 
 _LOOKUP_CACHE = {}
@@ -413,12 +392,19 @@ def state_lookup_name(prog):
             if c.get('kind') == 'DeclRefExpr':
                 rd = c.get('referencedDecl', {})
                 qt = (rd.get('type') or {}).get('qualType', '')
-                if re.match(r'\s*(struct\s+)?lltd_iface_state\s*\*\s*\(', qt) and rd.get('name') in ix.functions and rd['name'] not in cands:
+                if re.match(r'\s*(struct\s+)?lltd_iface_state\s*\*\s*\(', qt) and rd.get('name') not in cands \
+                        and prog.resolve(ix, rd.get('name'))[1] is not None:
                     cands.append(rd['name'])
     if len(cands) != 1:
         raise AnalysisBroken('cannot identify the interface-record lookup called from parseFrame (candidates %s)' % cands)
     _LOOKUP_CACHE[key] = cands[0]
     return cands[0]
+
+
+def state_lookup_unit(prog):
+    """Unit path in which the record lookup is defined (it may have been moved out of the frame handler's file)."""
+    ixx, fn = prog.resolve(prog.unit(BLOCK_UNIT), state_lookup_name(prog))
+    return ixx.unit.path
 
 
 def request_alloc(oid):
